@@ -210,7 +210,7 @@ def stream_monitor(rec, case):
     rec.count("traces")
     rec.count("transitions", tr.transitions)
     for s in tr.states:
-        rec.mark("states", ("s",) + s[:2])
+        rec.mark("model_states", ("s",) + s[:2])
     it, mt = trees.tup(case.tree), model.tup()
     rec.mark("outcomes", trees.shape(case.tree))
     if any(len(s[0]) > 0 for s in tr.states) and tr.dropped:
